@@ -269,6 +269,9 @@ func (g *Gen) call(v *ssa.Call, c *ssa.CallCommon, ins ssa.Instruction) {
 		for _, m := range con.Modifies {
 			g.applyModifies(m, env, ci)
 		}
+		if con.CallsBack {
+			g.applyCallbacks(c)
+		}
 		if !con.Pure && len(con.Modifies) == 0 && !con.Assumed && !con.hasFrame() {
 			g.defaultEffects(ci, c, args)
 		}
@@ -817,10 +820,10 @@ func (g *Gen) appendBuiltin(c *ssa.CallCommon, args []Term, res ssa.Value) {
 			old := g.sv(hn, srt)
 			nv := g.havocSV(hn, srt)
 			g.assumeRaw(fmt.Sprintf("(forall ((r Int)) (! (=> (not (= (er_arr r) (sarr %s))) (= (select %s r) (select %s r))) :pattern ((select %s r))))", r.S, nv, old, nv))
-			g.assumeRaw(fmt.Sprintf("(forall ((i Int)) (! (=> (and (<= 0 i) (< i (slen %s))) (= (select %s (elemref (sarr %s) (+ (soff %s) i))) (select %s (elemref (sarr %s) (+ (soff %s) i))))) :pattern ((select %s (elemref (sarr %s) (+ (soff %s) i))))))",
-				s.S, nv, r.S, r.S, old, s.S, s.S, nv, r.S, r.S))
-			g.assumeRaw(fmt.Sprintf("(forall ((i Int)) (! (=> (and (<= 0 i) (< i %s)) (= (select %s (elemref (sarr %s) (+ (soff %s) (slen %s) i))) (select %s (elemref (sarr %s) (+ (soff %s) i))))) :pattern ((select %s (elemref (sarr %s) (+ (soff %s) (slen %s) i))))))",
-				n, nv, r.S, r.S, s.S, old, t.S, t.S, nv, r.S, r.S, s.S))
+			g.assumeRaw(fmt.Sprintf("(forall ((i Int)) (! (=> (and (<= 0 i) (< i (slen %s))) (= (select %s (elemref (sarr %s) (idx %s i))) (select %s (elemref (sarr %s) (idx %s i))))) :pattern ((select %s (elemref (sarr %s) (idx %s i)))) :pattern ((idx %s i))))",
+				s.S, nv, r.S, r.S, old, s.S, s.S, nv, r.S, r.S, s.S))
+			g.assumeRaw(fmt.Sprintf("(forall ((j Int)) (! (=> (and (<= (slen %s) j) (< j (+ (slen %s) %s))) (= (select %s (elemref (sarr %s) (idx %s j))) (select %s (elemref (sarr %s) (idx %s (- j (slen %s))))))) :pattern ((idx %s j))))",
+				s.S, s.S, n, nv, r.S, r.S, old, t.S, t.S, s.S, r.S))
 			// in place: elements outside the appended range keep their value
 			g.assumeRaw(fmt.Sprintf("(forall ((i Int)) (! (=> (and (= (sarr %s) (sarr %s)) (or (< i (+ (soff %s) (slen %s))) (>= i (+ (soff %s) (slen %s) %s)))) (= (select %s (elemref (sarr %s) i)) (select %s (elemref (sarr %s) i)))) :pattern ((select %s (elemref (sarr %s) i)))))",
 				r.S, s.S, s.S, s.S, s.S, s.S, n, nv, r.S, old, r.S, nv, r.S))
@@ -832,16 +835,16 @@ func (g *Gen) appendBuiltin(c *ssa.CallCommon, args []Term, res ssa.Value) {
 	old := g.sv(h, srt)
 	nv := g.havocSV(h, srt)
 	g.assumeRaw(fmt.Sprintf("(forall ((r Int)) (! (=> (not (= r (sarr %s))) (= (select %s r) (select %s r))) :pattern ((select %s r))))", r.S, nv, old, nv))
-	g.assumeRaw(fmt.Sprintf("(forall ((i Int)) (! (=> (and (<= 0 i) (< i (slen %s))) (= (select (select %s (sarr %s)) (+ (soff %s) i)) (select (select %s (sarr %s)) (+ (soff %s) i)))) :pattern ((select (select %s (sarr %s)) (+ (soff %s) i)))))",
-		s.S, nv, r.S, r.S, old, s.S, s.S, nv, r.S, r.S))
+	g.assumeRaw(fmt.Sprintf("(forall ((i Int)) (! (=> (and (<= 0 i) (< i (slen %s))) (= (select (select %s (sarr %s)) (idx %s i)) (select (select %s (sarr %s)) (idx %s i)))) :pattern ((select (select %s (sarr %s)) (idx %s i))) :pattern ((idx %s i))))",
+		s.S, nv, r.S, r.S, old, s.S, s.S, nv, r.S, r.S, s.S))
 	var src string
 	if tIsStr {
-		src = fmt.Sprintf("(at %s i)", t.S)
+		src = fmt.Sprintf("(at %s (- j (slen %s)))", t.S, s.S)
 	} else {
-		src = fmt.Sprintf("(select (select %s (sarr %s)) (+ (soff %s) i))", old, t.S, t.S)
+		src = fmt.Sprintf("(select (select %s (sarr %s)) (idx %s (- j (slen %s))))", old, t.S, t.S, s.S)
 	}
-	g.assumeRaw(fmt.Sprintf("(forall ((i Int)) (! (=> (and (<= 0 i) (< i %s)) (= (select (select %s (sarr %s)) (+ (soff %s) (slen %s) i)) %s)) :pattern ((select (select %s (sarr %s)) (+ (soff %s) (slen %s) i)))))",
-		n, nv, r.S, r.S, s.S, src, nv, r.S, r.S, s.S))
+	g.assumeRaw(fmt.Sprintf("(forall ((j Int)) (! (=> (and (<= (slen %s) j) (< j (+ (slen %s) %s))) (= (select (select %s (sarr %s)) (idx %s j)) %s)) :pattern ((idx %s j))))",
+		s.S, s.S, n, nv, r.S, r.S, src, r.S))
 	g.assumeRaw(fmt.Sprintf("(forall ((i Int)) (! (=> (and (= (sarr %s) (sarr %s)) (or (< i (+ (soff %s) (slen %s))) (>= i (+ (soff %s) (slen %s) %s)))) (= (select (select %s (sarr %s)) i) (select (select %s (sarr %s)) i))) :pattern ((select (select %s (sarr %s)) i))))",
 		r.S, s.S, s.S, s.S, s.S, s.S, n, nv, r.S, old, r.S, nv, r.S))
 }
